@@ -430,6 +430,10 @@ def _perturb(rng, ts):
             if rng.random() < 0.3:
                 s, b = ts2[d][k]
                 ts2[d][k] = (rng.choice([1, 2, 4, 8, 16, 32, s if s is not None else 1]), b)
+            elif rng.random() < 0.2:
+                # same step, different bound at the same position (lccb itself does not require equal bounds)
+                s, b = ts2[d][k]
+                ts2[d][k] = (s, rng.choice([1, 2, 3, 4, 8]) if b is not None else b)
     return ts2
 
 
@@ -444,7 +448,7 @@ def _roundtrip(l):
     t = s.getvalue()
     try:
         b = Parser(ctx, t).parse_attribute()
-        return t, b.data == l, str(b.data)
+        return t, unmk(b.data) == unmk(l), str(b.data)
     except Exception as e:
         return t, False, "ERR " + repr(e)[:100]
 
